@@ -2,7 +2,7 @@
 
 from __future__ import annotations
 
-from asyncio import Future, ensure_future, gather
+from asyncio import CancelledError, Future, ensure_future, gather, shield
 from typing import TYPE_CHECKING, Any
 
 if TYPE_CHECKING:
@@ -21,13 +21,31 @@ async def gather_with_cancel(*awaitables: Awaitable[Any]) -> list[Any]:
     for all tasks to complete even if one of them raises an exception. It is also
     different from `asyncio.gather` with `return_exceptions` set, which does not
     cancel the other tasks when one of them raises an exception.
+
+    The cancelled awaitables are always awaited before the exception is propagated,
+    also when the awaiting task is itself cancelled (before or while waiting for
+    them), so that they can run their cleanup to the end and are not cancelled twice.
     """
     futures: list[Future[Any]] = [ensure_future(aw) for aw in awaitables]
     try:
         return await gather(*futures)
-    except Exception:
+    except (Exception, CancelledError):
         for future in futures:
             if not future.done():
-                future.cancel()
-        await gather(*futures, return_exceptions=True)
+                # when this task has been cancelled, the gathering future has already
+                # passed the cancellation on: do not cancel an awaitable a second time
+                cancelling = getattr(future, "cancelling", None)  # Python >= 3.11
+                if cancelling is None or not cancelling():
+                    future.cancel()
+        settled = gather(*futures, return_exceptions=True)
+        cancelled: CancelledError | None = None
+        while not settled.done():
+            try:
+                # shielded: a further cancellation of this task must not reach the
+                # already cancelled awaitables again, but it is remembered
+                await shield(settled)
+            except CancelledError as error:
+                cancelled = error
+        if cancelled is not None:
+            raise cancelled from None
         raise
